@@ -1,6 +1,6 @@
 #!/bin/bash
 # usage: tools/confirm_seed.sh <PROP> <n>   -- confirm a seeded change in its scratch worktree /tmp/seed/<PROP>
-wt=/tmp/seed/$1; d=$wt/out/$2
+wt=${SEED_BASE:-/tmp/seed}/$1; d=$wt/out/$2
 cd $wt || exit 2
 git checkout -q -- . 
 PYTHONPATH=$wt /venv/bin/python $d/demo.py >/dev/null 2>&1; clean=$?
@@ -9,6 +9,6 @@ PYTHONPATH=$wt /venv/bin/python $d/demo.py >/dev/null 2>&1; patched=$?
 cmd=$(python3 -c "import json;print(json.load(open('$d/meta.json')).get('tests_run',''))")
 tests=$(echo "$cmd" | grep -o "tests/[A-Za-z0-9_/.]*" | sort -u | tr '\n' ' ')
 res="(no tests named)"
-if [ -n "$tests" ]; then res=$(timeout 3000 /venv/bin/python -m pytest -q -p no:cacheprovider --timeout=900 $tests --junitxml=/tmp/seed/junit_$1_$2.xml 2>&1 | tail -1; python3 /verif/tools/baseline_compare.py /tmp/seed/junit_$1_$2.xml | tr '\n' ' '); fi
+if [ -n "$tests" ]; then res=$(timeout 3000 /venv/bin/python -m pytest -q -p no:cacheprovider --timeout=900 $tests --junitxml=${SEED_BASE:-/tmp/seed}/junit_$1_$2.xml 2>&1 | tail -1; python3 /verif/tools/baseline_compare.py ${SEED_BASE:-/tmp/seed}/junit_$1_$2.xml | tr '\n' ' '); fi
 git checkout -q -- .
 echo "$1/$2 demo clean=$clean patched=$patched tests: $res"
